@@ -36,6 +36,18 @@ FIRST_MISSED = {
     "C07-d": "first only as a broken obligation; reserved word glued to @ / $ / accented letter / digit added to the names",
     "C11-d": "first only as a broken correspondence; NULL inside window frame offsets added to the pool (exposed the C12 frame-offset finding)",
     "C10-b": "rebased onto 3ed8b7a (same mutation as C05-d)",
+    "C01-e": "missed at first (the expression generator had no CASE / CAST / calls); CASE-CAST-call battery with the SQLite value oracle added",
+    "C02-e": "missed at first (at most two joins per query); chains of up to five joins with CROSS JOINs mixed in",
+    "C05-e": "missed by C05 at first (caught by C19); one-column multi-row INSERT / REPLACE added",
+    "C06-e": "missed at first; text that is not in a Unicode normalisation form added (and the driver protocol no longer splits answers at U+2028)",
+    "C08-e": "first only as a broken correspondence; the rename map (fmap= / is_null=) added to the option combinations",
+    "C10-e": "missed at first; calls named like the library's own tree keys added — which exposed the known finding select-item:function-named-value on the unchanged tree",
+    "C11-e": "a thread interleaving (lock narrowed): shown by C16's soak, not by the sequential C11 oracle",
+    "C12-e": "first an internal error of the harness (to_simple on a damaged normal form); now normal-shape:args-not-a-list",
+    "C13-e": "missed at first; comments (incl. the empty /**/) between and behind statements added; a pool statement that stops being accepted is a finding",
+    "C15-e": "missed at first; the same names formatted under both quoting styles added to alphabet and probes",
+    "C18-e": "first only as a broken obligation; quoted text inside a column type (generated column) added to C18, column-type probes and 'an earlier parser must not change when a later one is built' signature to C15",
+    "C19-e": "missed at first; sizes of 0 and time types with a precision added",
 }
 rows = []
 for d in sorted(glob.glob(os.path.join(V, "seeded", "*"))):
